@@ -154,7 +154,7 @@ AnchoredByHostname(fh, h, wildcard) ==
     IF mi = 0 THEN FALSE
     ELSE IF mi = 1 THEN wildcard \/ fh[fl] = "." \/ h[fl + 1] = "."
     ELSE IF mi = hl - fl + 1 THEN fh[1] = "." \/ h[mi - 1] = "."
-    ELSE /\ (wildcard \/ fh[fl] = "." \/ h[fl + 1] = ".")     \* sic: indexes from 0, not from mi
+    ELSE /\ (wildcard \/ fh[fl] = "." \/ h[mi + fl] = ".")
          /\ (fh[1] = "." \/ h[mi - 1] = ".")
 
 \* get_url_after_hostname: after the first textual occurrence in the URL
@@ -162,7 +162,17 @@ UrlAfterHostname(url, hn) ==
   LET i == FirstIndexOf(hn, url) IN
   IF i = 0 THEN <<>> ELSE From(url, i + Len(hn))
 
+\* a left-anchored pattern that is exactly a scheme prefix is folded into scheme bits + empty filter
+SchemeFold(pat) == IF pat.left = "pipe" /\ Str(LowerS(pat.body)) \in {"http://", "https://", "ws://", "http*://"}
+                   THEN Str(LowerS(pat.body)) ELSE "none"
+UrlScheme(req) == LET c == FirstChar(":", req.url) IN IF c = 0 THEN "" ELSE Str(LowerS(Sub(req.url, 1, c - 1)))
+
 ImplMatch(pat, req) ==
+  IF SchemeFold(pat) # "none" THEN
+     LET sc == UrlScheme(req) f == SchemeFold(pat) IN
+     IF f = "http://" THEN sc # "https" ELSE IF f = "https://" THEN sc # "http"
+     ELSE IF f = "ws://" THEN sc \notin {"http", "https"} ELSE TRUE
+  ELSE
   LET x == Extract(pat)
       url == LowerS(req.url)
       host == LowerS(Sub(req.url, req.hs, req.he))
@@ -191,6 +201,11 @@ ImplMatch(pat, req) ==
 \*   hostname or in the URL and the code only looks at the first occurrence
 \* portInsideAnchorHost: the ||host part of a plain pattern swallows ':'
 DevNames(p, q) ==
+  IF SchemeFold(p) # "none" THEN
+     (IF p.right THEN {"schemeFoldIgnoresRightAnchor"} ELSE {})
+     \cup (IF SchemeFold(p) = "ws://" /\ UrlScheme(q) = "wss" THEN {"wsPatternMatchesWss"} ELSE {})
+     \cup (IF SchemeFold(p) \in {"http://", "https://"} /\ UrlScheme(q) \in {"ws", "wss"} THEN {"wsMatchesHttpOnlyRule"} ELSE {})
+  ELSE
   LET x == Extract(p)
       u == LowerS(q.url)
       host == LowerS(Sub(q.url, q.hs, q.he)) IN
